@@ -15,7 +15,17 @@ LEVEL_NOTE = ('Signature validity is the abstract predicate V(digest, signature 
               'Transaction.sign placement, signing spread over several '
               'calls, the tamper clause (needs injectivity of the preimage + hash collision resistance + ECDSA unforgeability as hypotheses), '
               'serialize/parse round trips (C06).')
-NOT_COVERED = ['Transaction.verify for more than 3 inputs (uniform loop body)', 'Transaction.sign signature placement and multi-call histories', 'tamper lemma']
+LEVEL_NOTE += (' Whether the fields a parsed transaction holds are what its bytes say (hash type byte, witness items) and the tamper clause in its concrete form are covered by a BOUNDED '
+               'native stand-in (bounded/c02_verify.py, never counted as proved): library-signed transactions are damaged one serialised field at a time, parsed and verified, '
+               'against an independent judge (own reader, spec/sighash.py digests, pure-Python ECDSA). The object state an earlier verify() leaves behind (Input.valid) is a free '
+               'Boolean in the Transaction.verify shapes.')
+NOT_COVERED = ['tamper clause as a proof (bounded only)', 'Transaction.sign signature placement and multi-call histories', 'tamper lemma']
 TRUSTED = ['V(digest, sig, key) abstract; ECDSA assumed (C13)', 'pyvc loop-invariant rule (invariant cut, natural-number induction)']
 FUZZ_QUICK = 150
 FUZZ_THOROUGH = 3000
+
+
+
+def extra_checks(tier, seed, opens):
+    from bounded import c02_verify
+    return [c02_verify.run(tier, seed, opens)]
